@@ -120,6 +120,9 @@ func runKsScript(ctx context.Context, nk int, sid int, ops [][]json.RawMessage, 
 			_ = json.Unmarshal(op[2], &id)
 		}
 		rec.ID = id
+		// the model's names are abstract: each script concretises them with one shape of id string (flat, address-like with
+		// a leading slash, doubled slash, dot segment, trailing blank) - distinct names stay distinct under path cleaning
+		id = concreteID(id, sid)
 		_, rec.Present = present[id]
 		rec.WantFp = present[id]
 		rec.DsBefore = countKeys(ctx, store)
@@ -320,4 +323,22 @@ func ksrun(args []string) int {
 	}
 	fmt.Printf("ksrun: scripts=%d events=%d\n", len(scripts), n)
 	return 0
+}
+
+// concreteID gives the abstract name n the id string of the script's palette.
+func concreteID(n string, sid int) string {
+	if n == "" {
+		return n
+	}
+	switch sid % 5 {
+	case 1:
+		return "/orbitdb/" + n + "/keys"
+	case 2:
+		return "zone//" + n
+	case 3:
+		return "./" + n + "/../" + n + "-x"
+	case 4:
+		return n + " "
+	}
+	return n
 }
